@@ -161,6 +161,13 @@ func (vfs *MemFS) searchNodeOnce(path string, slMode slMode) (
 
 		case *symlinkNode:
 			// Symlinks mode is always 0o777, no need to check permissions.
+			if pi.IsLast() && slMode == slmLstat {
+				// a symbolic link that is not followed does not count.
+				err = vfs.err.FileExists
+
+				return
+			}
+
 			slCount++
 			if slCount > slCountMax {
 				err = vfs.err.TooManySymlinks
@@ -169,11 +176,6 @@ func (vfs *MemFS) searchNodeOnce(path string, slMode slMode) (
 			}
 
 			if pi.IsLast() {
-				if slMode == slmLstat {
-					err = vfs.err.FileExists
-
-					return
-				}
 
 				// if the last part of the path is a symbolic link
 				// Stat should return the initial path of the symbolic link
